@@ -303,9 +303,22 @@ def evaluate(kind, n, name, args, kwargs):
                 em, rm = "InvalidRequestError", None
             else:
                 em, rm = _call(model, "__delitem__", [v.name], {})
+    elif kind == "set" and name == "pop" and not args and not kwargs:
+        # set.pop() removes an ARBITRARY member: the builtin's choice is not part of the contract.  Contract: the returned
+        # object was a member, exactly it is removed (one remove event); KeyError on an empty set.
+        ec0, rc0 = _call(coll, name, [], {})
+        if ec0 is None and any(rc0 is x for x in model):
+            model.remove(rc0)
+            em, rm = None, rc0
+        else:
+            em, rm = _call(model, name, [], {})
+        _precomputed = (ec0, rc0)
     else:
         em, rm = _call(model, name, [build(d, kind, model, pool, base) for d in args], kwbuild(kwargs, kind, model, pool, base))
-    ec, rc = _call(coll, name, [build(d, kind, coll, pool, ct) for d in args], kwbuild(kwargs, kind, coll, pool, ct))
+    if kind == "set" and name == "pop" and not args and not kwargs:
+        ec, rc = _precomputed
+    else:
+        ec, rc = _call(coll, name, [build(d, kind, coll, pool, ct) for d in args], kwbuild(kwargs, kind, coll, pool, ct))
     events = list(log)
     del log[:]
     failed = []
@@ -314,6 +327,8 @@ def evaluate(kind, n, name, args, kwargs):
     if ec != em:
         failed.append("exception")
     nr_c, nr_m = _norm_ret(kind, rc, coll, pool), _norm_ret(kind, rm, model, pool)
+    if kind == "set" and name in ("__iter__",) and isinstance(nr_c, list) and isinstance(nr_m, list):
+        nr_c, nr_m = [nr_c[0]] + sorted(map(str, nr_c[1:])), [nr_m[0]] + sorted(map(str, nr_m[1:]))   # set iteration order is arbitrary
     if ec is None and em is None and nr_c != nr_m:
         failed.append("returns")
     # expected events
